@@ -23,7 +23,8 @@ RULE = ('Hypothesis generates parameter trees over the supported grammar (None/b
         'the entry cache.save() wrote for t == key computed in '
         'the other shard processes, which run with different PYTHONHASHSEED; (2) injectivity - equal keys imply same type and '
         'equal canonical parameter trees (sha1 collisions ignored); (3) LocalStorage.exists(key) does not raise - for a plain storage directory, one below a symlinked directory, and one that is itself a symlink. Non-trivial = '
-        'tree depth >= 2 containing a nested task or enum, or a pair differing only in a value\'s type. Distinct = hash of spec.')
+        'tree depth >= 2 containing a nested task or enum, or a pair differing only in a value\'s type. Distinct = hash of spec. Engine "main-script": a user script whose task types '
+        'live in __main__ run with the spawn backend - the key seen on every worker\'s copy and the key directories must equal the caller\'s keys.')
 ASSUMPTIONS = ['sha1 collisions ignored', '+0.0 vs -0.0 and dict-key order are not asserted in either direction',
                'NaN parameters are excluded from this property (nan != nan makes "same value" undefined)']
 
